@@ -465,6 +465,7 @@ def run(tier):
                             _sys.stdin = saved
                     return opener
                 namings.append(("stdin", 19, with_stdin(None)))
+                namings.append(("stdin", 19, with_stdin("")))            # the empty string names standard input too
                 namings.append(("stdin", 19, with_stdin("-")))
                 if container in ("stream", "avro"):
                     namings.append(("stdin_scheme", 19, with_stdin({"stream": "stream://-", "avro": "avro://-"}[container])))
@@ -501,6 +502,16 @@ def run(tier):
                 namings.append(("fileobj_offset", 19, at_offset("rawfile")))
                 for k in ((1, 2, 3, 4) if thorough or seq == 0 else (1, 3)):
                     namings.append(("fileobj", k, (lambda k=k: RecordReader(fileobj=Dribble(blob, k)))))
+                # a file object that is readable but was opened for appending + reading (its .mode does not begin with r)
+                def aplus():
+                    cp = os.path.join(tmp, "aplus_copy")
+                    with open(cp, "wb") as fh:
+                        fh.write(blob)
+                    f = open(cp, "a+b")
+                    f.seek(0)
+                    return RecordReader(fileobj=f)
+
+                namings.append(("fileobj", 19, aplus))
                 # a path whose extension names the container only, the bytes being compressed all the same
                 if container in ("stream", "avro") and codec != "none":
                     hidden = os.path.join(tmp, "hidden" + {"stream": ".records", "avro": ".avro"}[container])
